@@ -10,7 +10,8 @@
    correspondence check over every (class, unit). *)
 From Coq Require Import ZArith List Bool String PrimFloat.
 From PV Require Import Units.Tables Units.SIString Units.Dispatch Units.TableProofs Units.DispatchProofs
-                       Units.Gen_Tables Units.Gen_Compound Units.GenFacts17 Units.Pinned.
+                       Units.Pinned.
+From PV Require Import Units.Gen_Tables Units.Gen_Compound Units.GenFacts17.
 Import ListNotations.
 Local Open Scope string_scope.
 
